@@ -4,8 +4,8 @@ SPEC = {
     "gen": ["ckptconsts"],
     "streams": [
         {"name": "ckpt", "cmd": "ckpt",
-         "args": {"quick": ["-trees", "26", "-per-tree", "4", "-kmax", "400"],
-                  "thorough": ["-trees", "500", "-per-tree", "5", "-maxn", "3000", "-kmax", "3000", "-stack-budget", "6000000", "-kwork", "3000000"]},
+         "args": {"quick": ["-trees", "26", "-per-tree", "4", "-kmax", "400", "-boundary", "3"],
+                  "thorough": ["-trees", "500", "-per-tree", "5", "-maxn", "3000", "-kmax", "3000", "-stack-budget", "6000000", "-kwork", "3000000", "-boundary", "60"]},
          "search_args": ["-trees", "150", "-per-tree", "4", "-kmax", "0"]},
     ],
     "trusted_base": [
@@ -17,7 +17,7 @@ SPEC = {
         "modelled abstractly: snappy + CBOR framing and node decoding (a function bytes -> option proof), the digest and node hashes (abstract functions, collision disjunct), the node database during a multipart restore (the set of imported key/value pairs); not modelled: goroutine scheduling inside RestoreChunk, badger/pathbadger key layout (exercised by the harness only)",
     ],
     "assumptions": [
-        "the theorems about the parallel chunker are proved for the count abstraction (subtree, number of keys already visited); the port of the subtree{path,pending} stack machine (Ckpt/Stack.v) is tied to it by evaluation (three-way agreement with the real chunker on every correspondence case), its refinement is proved only compositionally (par_stack_refines_count_partial: splitTasks, rounds and filtering preserve a simulation whose nextChunk/split steps are premises)",
+        "the port of the stack machine identifies nodes by subtree value where the code identifies them by hash (in a well-formed tree different positions hold different subtrees: proved, nodes_nodup); its refinement of the count abstraction is proved (par_stack_refines_count) for non-empty trees; the empty tree (one nil chunk) is covered by evaluation only",
         "keys are non-empty (the empty key is outside the domain of the iterator, see C03)",
         "decoded proofs respect the length fields of the format (pbounded)",
     ],
@@ -25,6 +25,6 @@ SPEC = {
 
 MANIFEST = {
     "technique": "Coq proof (coverage invariant over split/emit/filter of the lock-step parallel chunker, key-run partition of the sequential chunker, order-insensitive idempotent import, proof-verification soundness modulo hash collisions) with differential correspondence check of both real chunkers and an implementation-side restore oracle on both node database backends",
-    "level_text": "Theorems in coq/Props/C12.v hold for every well-formed tree, every chunk size and every thread count: every chunk recomputes to the checkpoint root and carries only pairs of the tree, every pair is carried by some chunk, the sequential chunks partition the contents in order, the parallel rounds terminate, importing the chunks in any order with any repetitions yields exactly the contents (hence, by canonicity of the trie, the same tree and root), the chunk list depends only on (contents, chunk size, threads), a chunk with a wrong digest / undecodable / non-verifying proof changes nothing, and an accepted chunk is the genuine file and shows only pairs of the tree unless a hash collides. The model is tied to the code by creating real checkpoints (sequential and parallel chunkers) on real databases, decoding every chunk file independently and comparing the per-chunk key lists with the model evaluated in Coq; restores with random orders, duplicates, 1-8 goroutines, abort/restart, a deterministic in-flight interleaving (one chunk pinned inside RestoreChunk by a blocking reader while another caller restores all others, with and without a duplicate of the pinned chunk: no call may report done before the pinned import completed) and seven corruption classes are judged by an oracle on the implementation (full iteration of the restored root equals the original contents).",
+    "level_text": "Theorems in coq/Props/C12.v hold for every well-formed tree, every chunk size and every thread count: every chunk recomputes to the checkpoint root and carries only pairs of the tree, every pair is carried by some chunk, the sequential chunks partition the contents in order, the parallel rounds terminate, importing the chunks in any order with any repetitions yields exactly the contents (hence, by canonicity of the trie, the same tree and root), the chunk list depends only on (contents, chunk size, threads), a chunk with a wrong digest / undecodable / non-verifying proof changes nothing, and an accepted chunk is the genuine file and shows only pairs of the tree unless a hash collides. The model is tied to the code by creating real checkpoints (sequential and parallel chunkers) on real databases, decoding every chunk file independently and comparing the per-chunk key lists with the model evaluated in Coq; restores with random orders, duplicates, 1-8 goroutines, abort/restart, chunk sizes placed exactly on / one below / one above the recomputed size estimate of a chunk (with an implementation-side oracle for the sequential boundary rule), a deterministic in-flight interleaving (one chunk pinned inside RestoreChunk by a blocking reader while another caller restores all others, with and without a duplicate of the pinned chunk: no call may report done before the pinned import completed) and seven corruption classes are judged by an oracle on the implementation (full iteration of the restored root equals the original contents).",
     "level_note": "Trusted: Coq kernel; the harness and its chunk decoder; the abstraction of the parallel chunker's traversal stack (validated by correspondence, not proved); framing, hashing and the node database are abstract in the model. The proof verifier's depth limit (128) is part of the model: chunks_verify carries the hypothesis and a refutation witness shows it is needed.",
 }
